@@ -236,7 +236,7 @@ func sharedWritesRule(P *Program, R *Report) {
 		R.seen(FuncKey(fn))
 		record := func(ins ssa.Instruction, target string) {
 			nWrites++
-			key := FuncKey(fn) + ":write(" + target + ")"
+			key := FuncKey(ownerOf(P, fn)) + ":write(" + target + ")"
 			ok, how := synchronised(P, fn, ins)
 			if !ok {
 				// the object may be owned by the caller: every call site in the concurrent call tree passes a freshly created object
